@@ -9,6 +9,7 @@ import (
 
 	"verif/hx"
 	"verif/vrt"
+	"verif/wire"
 )
 
 // C14: concurrent use of sessions and listeners is free of data races.
@@ -134,6 +135,48 @@ func vfC14(c *hx.Ctx) {
 					sock2 := p.net.socket(vfUDP(3, 40001))
 					bc, _ := vfBlockCrypt(cf.Cipher)
 					second, _ = NewConn3(vfConv+1, p.laddr, bc, cf.DS, cf.PS, sock2)
+				})
+				// rejected input on every receive path at the same time (dialled session, second dialled session, listener with and
+				// without a session): the error branches update process-wide counters from different goroutines
+				sealer := vfNewSealer(cf.Cipher)
+				garbage := func(conv uint32) [][]byte {
+					var out [][]byte
+					wrap := func(body []byte) []byte {
+						if cf.DS > 0 {
+							b := make([]byte, fecHeaderSizePlus2+len(body))
+							b[0], b[1], b[2], b[3] = 0x50, 0x46, 0x0f, 0x00
+							b[4] = typeData
+							b[6], b[7] = byte(len(body)+2), byte((len(body)+2)>>8)
+							copy(b[fecHeaderSizePlus2:], body)
+							return b
+						}
+						return body
+					}
+					foreign := wire.EncodeSegment(wire.Seg{Conv: conv + 77, Cmd: wire.CmdPush, Wnd: 32, Sn: 3, Data: []byte("foreign")}, -1)
+					liar := wire.EncodeSegment(wire.Seg{Conv: conv, Cmd: wire.CmdPush, Wnd: 32, Sn: 40, Data: []byte("short")}, 400) // declares more data than it carries
+					badcmd := wire.EncodeSegment(wire.Seg{Conv: conv, Cmd: 99, Wnd: 32, Sn: 41}, -1)
+					for _, b := range [][]byte{foreign, liar, badcmd} {
+						out = append(out, sealer.seal(wrap(b)))
+					}
+					bad := sealer.seal(wrap(foreign))
+					bad[len(bad)-1] ^= 0x40 // fails the integrity check when a cipher is configured
+					out = append(out, bad, []byte{1, 2, 3})
+					return out
+				}
+				vrt.Go("rejected-input", func() {
+					vrt.Sleep(5 * time.Millisecond)
+					for i := 0; i < 2; i++ {
+						for _, d := range garbage(vfConv) {
+							p.csock.inject(p.laddr, d)
+							p.lsock.inject(p.caddr, d)
+						}
+						for _, d := range garbage(vfConv + 1) {
+							p.net.socks[vfUDP(3, 40001).String()].inject(p.laddr, d)
+							p.lsock.inject(vfUDP(3, 40001), d)
+							p.lsock.inject(vfUDP(9, 9999), d)
+						}
+						vrt.Sleep(3 * time.Millisecond)
+					}
 				})
 				vrt.Go("second-client", func() {
 					second.Write([]byte("hello from the second client"))
